@@ -224,3 +224,9 @@ Proof.
     f_equal. rewrite rev_nth; rewrite rev_length; try lia. f_equal. lia.
   - apply nth_error_None in E. rewrite rev_length in E. lia.
 Qed.
+
+Print Assumptions le_value_le_bytes.
+Print Assumptions pack_size_range.
+Print Assumptions pack_size_bound.
+Print Assumptions take_be_le_bytes.
+Print Assumptions take_nums_le_bytes.
